@@ -725,6 +725,7 @@ def run(ctx):
         "C09_exact: membership in the translation = 'some row applies' (literal: P = L; regex: oracle full match), nothing else",
         "C09_literal_only_itself: is_literal = only dots and characters regex.escape leaves alone; such a row applies iff L = P",
         "C09_bag: raw bag of a taxon = Σ multiplicity × occurrences, from any reachable state",
+        "C09_keys: the accumulator has exactly one key per taxon some label translates to (empty span lists included)",
         "C09_table_wf: a text passing tableOk is read without error into its distinct rows (tableOk is evaluated on the "
         "default table by the driver at run time: coverage.default_table_ok; not kernel-checked, too slow)",
     ]
